@@ -53,13 +53,15 @@ MINIMUMS = {
 }
 
 FNS = [kinds.node, kinds.node2, kinds.two, kinds.three, kinds.Base, kinds.Mid, kinds.Other,
-       kinds.target3, kinds.DC, dup1.same, dup2.same, kinds.WithMethods.smake]
+       kinds.target3, kinds.DC, dup1.same, dup2.same, kinds.WithMethods.smake,
+       kinds.Float, kinds.Dict]
 POS_FNS = [kinds.posnode, kinds.PosInit, sigs.g_ab_c_va, sigs.g_a1_b2_va_k_vk]
 LEAVES = [0, 1, -7, 2**70, 2.5, -0.5, 1e300, 'a', 'name with "quotes" and \\ backslash', '', None,
           True, False, (1, 2), (), ('x', (3, 4)), b'bytes\xff', kinds.Color.RED, kinds.Level.HIGH,
           kinds.two, kinds.Base, dup1.Thing, dup2.Thing, 3 + 4j, ..., [1, 2], {'k': 1},
           float('inf'), float('nan'), complex(1, -2), complex(-1.5, 2), -3j, {1, 2}, set(),
-          kinds.Level.LOW, kinds.Rank.FIRST, kinds.Rank.SECOND, kinds.StrA.NONE, kinds.StrB.NONE]
+          kinds.Level.LOW, kinds.Rank.FIRST, kinds.Rank.SECOND, kinds.StrA.NONE, kinds.StrB.NONE,
+          float, dict, int, list]
 FIXTURE_NAMES = ['config_fixture', 'fixture', 'my_experiment']
 
 
@@ -128,6 +130,11 @@ def make_config(rng):
       keys = set(n.kw) | set(range(len(n.pos)))
       n.tags = {k: v for k, v in n.tags.items()
                 if (k in keys or gen.normalize_key(n.fn, k) in keys or k in n.kw)}
+      # (builtin callables: fdl.Config(dict, ...) is the idiom for an overridable dict)
+      if (n.btype == 'Config' and not n.pos and n is not root and rng.random() < 0.12
+          and all(isinstance(k, str) for k in n.kw)):
+        n.fn = dict
+        n.tags = {}
       # several tags on one argument
       for k in list(n.tags):
         if n.tags[k] and rng.random() < 0.3:
@@ -430,6 +437,11 @@ def present_features(root, opt):
     f.append('arg-factory')
   if any(isinstance(n, gen.B) and n.btype == 'Partial' for n in nodes):
     f.append('partial')
+  if any(isinstance(n, gen.B) and n.fn is dict for n in nodes):
+    f.append('builtin-callable')
+  if any((isinstance(n, gen.B) and n.fn in (kinds.Float, kinds.Dict)) or
+         (isinstance(n, gen.Leaf) and n.value in (float, dict, int, list)) for n in nodes):
+    f.append('builtin-names')
   cnt = collections.Counter()
   for p_, s_ in dagedit.refs(root):
     c = dagedit.get_ref(p_, s_)
@@ -458,7 +470,30 @@ def present_features(root, opt):
   return f
 
 
+def _rm_builtin_callable(root):
+  ch = False
+  for n in gen.walk(root):
+    if isinstance(n, gen.B) and n.fn is dict:
+      n.fn = kinds.node          # accepts arbitrary keyword arguments as well
+      ch = True
+  return ch
+
+
+def _rm_builtin_names(root):
+  ch = False
+  for n in gen.walk(root):
+    if isinstance(n, gen.B) and n.fn in (kinds.Float, kinds.Dict):
+      n.fn = kinds.Base if n.fn is kinds.Float else kinds.two
+      n.kw = {{'bits': 'x'}.get(k, k): v for k, v in n.kw.items()}
+      ch = True
+    elif isinstance(n, gen.Leaf) and n.value in (float, dict, int, list):
+      n.value = 3
+      ch = True
+  return ch
+
+
 CONFIG_FEATURES = [
+    ('builtin-callable', _rm_builtin_callable), ('builtin-names', _rm_builtin_names),
     ('special-leaf', _rm_special), ('named-tuple', _rm_named_tuple), ('tagged-value', _rm_tagged_value),
     ('tags', _rm_tags), ('positional', _rm_positional), ('arg-factory', _rm_btype('ArgFactory')),
     ('partial', _rm_btype('Partial')), ('sharing', _rm_sharing), ('same-name-symbols', _rm_dup),
@@ -616,7 +651,10 @@ def _node_objects(cfg, root):
           go(n.kw['value'], o.__arguments__['value'])
         return
       import inspect
-      ps = list(inspect.signature(n.fn).parameters.values())
+      try:
+        ps = list(inspect.signature(n.fn).parameters.values())
+      except (TypeError, ValueError):       # builtins such as dict: keyword arguments only here
+        ps = []
       npos_fixed = sum(p.kind in (p.POSITIONAL_ONLY, p.POSITIONAL_OR_KEYWORD) for p in ps)
       for i, c in enumerate(n.pos):
         key = gen.normalize_key(n.fn, i) if i < npos_fixed else i
